@@ -400,7 +400,12 @@ def _faithful(ctx, prog):
         bw = [w for w in A.field_writes(t, r"is_signer$|is_writable$|pubkey$") if w["kind"] == "assign"]
         WAL = "InstructionAccess::wallet(self)!"
         if cw and not bw:
-            filt = [v.replace("?>", "!>") for c in cl for v in H.closure_view(prog, t, c) if "PartialEq::eq" in v or " Eq " in v]
+            # the predicate handed to Iterator::filter: ALL of its results must be the wallet equality
+            fcs = [c for c in t.calls if c.short == "Iterator::filter"]
+            filt = None
+            if len(fcs) == 1 and fcs[0].arg_expr(1).k == "closure":
+                pf = prog.fns.get(fcs[0].arg_expr(1).a[0])
+                filt = [v.replace("?>", "!>") for v in H.closure_view(prog, t, pf)] if pf is not None else None
             fe = [c for c in t.calls if c.short == "Iterator::for_each"]
             ok = cw == [("$1.is_signer", "true")] and \
                 filt in (["PartialEq::eq($1.pubkey, <InstructionAccess::wallet(self)!>)"], ["PartialEq::eq(<InstructionAccess::wallet(self)!>, $1.pubkey)"]) and len(fe) == 1 and \
